@@ -1,6 +1,7 @@
 """C05 - revoked state is never used and state is never revoked early (structural part)."""
 from engine import *
 import provenance
+import mutations
 
 CH = 'lightning::ln::channel::'
 FC = CH + 'FundedChannel::'
@@ -462,3 +463,4 @@ RULES = [
 ]
 RULES.append(('05.t', 'identity comparisons: every reviewed (function, identity type) == / != comparison (HTLCSource, Txid, OutPoint, ChannelId, PaymentHash, PublicKey, ...) is still made - a function does not silently change what it matches by (rules/provenance.py)', lambda F: provenance.ids_for_property(F, 'C05', '05.t')))
 RULES.append(('05.R', 'state resets: every reviewed constant write to persistent state (flag = true / false, counter = 0, pending slot = None) of a function is still made (rules/provenance.py)', lambda F: provenance.flags_for_property(F, 'C05', '05.R')))
+RULES.append(('05.M', 'collection mutations: every reviewed (function, stored collection, mutator class: add / remove / filter / empty / swap / order) triple is still present - an entry that is no longer removed, inserted or drained on one path (rules/mutations.py)', lambda F: mutations.for_property(F, 'C05', '05.M')))
